@@ -1,5 +1,5 @@
 #!/bin/bash
-# run_seeded_snapshot.sh: for use under `vp run --with-repo -- tools/run_seeded_snapshot.sh`: applies every seeded change to the
+# run_seeded_snapshot.sh [<id> ...]: for use under `vp run --with-repo -- tools/run_seeded_snapshot.sh`: applies every seeded change to the
 # snapshot of /repo ($VP_RUN_REPO), runs the property's check from this snapshot of /verif against it, undoes it.
 # Writes seeded_results.txt in the snapshot directory (a diagnostic; evidence comes only from /verif run on /repo).
 R=${VP_RUN_REPO:?needs --with-repo}
@@ -7,13 +7,15 @@ export VERIF_REPO=$R
 cd "$(dirname "$0")/.."
 ./check --setup > setup.log 2>&1
 : > seeded_results.txt
-for d in seeded/C*-*; do
+if [ $# -gt 0 ]; then LIST=$(for a in "$@"; do echo seeded/$a; done); else LIST=$(ls -d seeded/C*-*); fi
+for d in $LIST; do
   id=$(basename $d); p=${id%-*}
   git -C $R apply $PWD/$d/patch.diff 2>/dev/null || { echo "$id: patch does not apply" >> seeded_results.txt; continue; }
   out=$(./check $p 2>&1 | grep -E "VIOLATION|quick:" | tr '\n' ' ')
   git -C $R checkout -- .
   echo "$id [$p]: $out" >> seeded_results.txt
 done
+if [ $# -gt 0 ]; then cat seeded_results.txt; exit 0; fi
 echo "unchanged tree:" >> seeded_results.txt
 for p in C01 C02 C03 C04 C05 C06 C07 C08 C09 C10 C11 C12 C13 C14 C15 C16 C17 C18 C19 C20; do
   echo "$p: $(./check $p 2>&1 | grep -E 'VIOLATION|quick:' | tr '\n' ' ')" >> seeded_results.txt
